@@ -196,6 +196,10 @@ def run(ck):
     import c03
     with ck.under("C03-", "C11-C03"):
         c03.rule_V(ck, lib)
+    # CR (like every white-space byte) may stand inside a message: what ends a message when streaming is decided by
+    # process's scan for the newline byte alone, and the bytes reach run unchanged (the K-rules of C07)
+    import c07
+    c07.rule_K(ck, lib, "C11-K")
 
 
 def rule_R(ck, lib, rid="C11-R"):
